@@ -7,33 +7,337 @@ never `div ≤ ok`), so "never decreases a bound and never turns an error into O
 
 namespace RTA
 open RTA.Spec
+open PruneCoreLemmas PruneFPLemmas PruneEDFLemmas
+
+namespace MonoLemmas
+
+/-! ### reading `naiveMax` -/
+
+theorem pick_ok_inv (p : Res → Bool) (hp_ok : ∀ v, p (.ok v) = false)
+    (hp_nok : ∀ x, (∀ v, x ≠ .ok v) → p x = true) (X : Res)
+    (rs : List Res) (R : Nat)
+    (h : (if rs.any p then (rs.find? p).getD .panic else X) = .ok R) :
+    ∀ x ∈ rs, ∃ v, x = .ok v := by
+  by_cases hany : rs.any p = true
+  · rw [if_pos hany] at h
+    exfalso
+    cases hf : rs.find? p with
+    | none =>
+      rw [List.any_eq_true] at hany
+      obtain ⟨x, hx, hpx⟩ := hany
+      rw [List.find?_eq_none] at hf
+      exact hf x hx hpx
+    | some y =>
+      rw [hf] at h
+      have hp := List.find?_some hf
+      simp only [Option.getD_some] at h
+      rw [h, hp_ok] at hp
+      cases hp
+  · intro x hx
+    cases x with
+    | ok v => exact ⟨v, rfl⟩
+    | div o l =>
+      exfalso; apply hany
+      rw [List.any_eq_true]
+      exact ⟨_, hx, hp_nok _ (fun v h => by cases h)⟩
+    | panic =>
+      exfalso; apply hany
+      rw [List.any_eq_true]
+      exact ⟨_, hx, hp_nok _ (fun v h => by cases h)⟩
+
+/-- an `ok` maximum: every element is `ok` -/
+theorem naiveMax_ok_inv (rs : List Res) (R : Nat) (h : naiveMax rs = .ok R) :
+    ∀ x ∈ rs, ∃ v, x = .ok v := by
+  unfold naiveMax at h
+  refine pick_ok_inv _ (fun _ => rfl) ?_ _ rs R h
+  intro x hx
+  cases x with
+  | ok v => exact absurd rfl (hx v)
+  | div o l => rfl
+  | panic => rfl
+
+/-- if every per-offset result is `ok` the maximum is the plain maximum of the values -/
+theorem naiveMax_all_ok (f : Nat → Res) (l : List Nat) (h : ∀ A ∈ l, ∃ v, f A = .ok v) :
+    ∃ g : Nat → Nat, (∀ A ∈ l, f A = .ok (g A)) ∧
+      naiveMax (l.map f) = .ok (maxList (l.map g)) := by
+  let g : Nat → Nat := fun A => match f A with | .ok v => v | _ => 0
+  have hfg : ∀ A ∈ l, f A = .ok (g A) := by
+    intro A hA
+    obtain ⟨v, hv⟩ := h A hA
+    show f A = .ok (match f A with | .ok v => v | _ => 0)
+    rw [hv]
+  refine ⟨g, hfg, ?_⟩
+  have e : l.map f = l.map fun A => Res.ok (g A) := List.map_congr_left hfg
+  rw [e, naiveMax_ok]
+
+theorem naiveMax_cases (f : Nat → Res) (l : List Nat) (o lim : Nat)
+    (hall : ∀ A ∈ l, (∃ v, f A = .ok v) ∨ f A = .div o lim) :
+    (∃ v, naiveMax (l.map f) = .ok v) ∨ naiveMax (l.map f) = .div o lim := by
+  by_cases hex : ∃ A ∈ l, f A = .div o lim
+  · obtain ⟨A, hA, hfA⟩ := hex
+    right
+    apply naiveMax_div o lim
+    · intro x hx
+      rcases List.mem_map.1 hx with ⟨a, ha, rfl⟩
+      exact hall a ha
+    · exact List.mem_map.2 ⟨A, hA, hfA⟩
+  · left
+    have hok : ∀ A ∈ l, ∃ v, f A = .ok v := by
+      intro A hA
+      rcases hall A hA with h | h
+      · exact h
+      · exact absurd ⟨A, hA, h⟩ hex
+    obtain ⟨g, _, hg⟩ := naiveMax_all_ok f l hok
+    exact ⟨_, hg⟩
+
+theorem res_le_div_of_cases (x : Res) (o lim : Nat)
+    (h : (∃ v, x = .ok v) ∨ x = .div o lim) : Res.le x (.div o lim) := by
+  rcases h with ⟨v, rfl⟩ | rfl
+  · exact trivial
+  · exact ⟨rfl, rfl⟩
+
+/-- the general comparison of two all-offset maxima: a longer busy window, pointwise
+larger per-offset results -/
+theorem naiveMax_range_le (f f' : Nat → Res) (L L' limit : Nat) (hL : L ≤ L')
+    (hres : ∀ A, (∃ v, f A = .ok v) ∨ f A = .div 0 limit)
+    (hres' : ∀ A, (∃ v, f' A = .ok v) ∨ f' A = .div 0 limit)
+    (hle : ∀ A, A < L → Res.le (f A) (f' A)) :
+    Res.le (naiveMax ((List.range L).map f)) (naiveMax ((List.range L').map f')) := by
+  by_cases hex' : ∃ A ∈ List.range L', f' A = .div 0 limit
+  · obtain ⟨A, hA, hfA⟩ := hex'
+    have e : naiveMax ((List.range L').map f') = .div 0 limit := by
+      apply naiveMax_div 0 limit
+      · intro x hx
+        rcases List.mem_map.1 hx with ⟨a, _, rfl⟩
+        exact hres' a
+      · exact List.mem_map.2 ⟨A, hA, hfA⟩
+    rw [e]
+    exact res_le_div_of_cases _ 0 limit (naiveMax_cases f _ 0 limit (fun A _ => hres A))
+  · have hok' : ∀ A ∈ List.range L', ∃ v, f' A = .ok v := by
+      intro A hA
+      rcases hres' A with h | h
+      · exact h
+      · exact absurd ⟨A, hA, h⟩ hex'
+    have hok : ∀ A ∈ List.range L, ∃ v, f A = .ok v := by
+      intro A hA
+      have hAL := List.mem_range.1 hA
+      obtain ⟨v', hv'⟩ := hok' A (List.mem_range.2 (by omega))
+      have := hle A hAL
+      rw [hv'] at this
+      rcases hres A with h | h
+      · exact h
+      · rw [h] at this; exact this.elim
+    obtain ⟨g, hg, e⟩ := naiveMax_all_ok f _ hok
+    obtain ⟨g', hg', e'⟩ := naiveMax_all_ok f' _ hok'
+    rw [e, e']
+    show maxList _ ≤ maxList _
+    apply maxList_le_of_forall
+    intro x hx
+    rcases List.mem_map.1 hx with ⟨A, hA, rfl⟩
+    have hAL := List.mem_range.1 hA
+    have hA' : A ∈ List.range L' := List.mem_range.2 (by omega)
+    have := hle A hAL
+    rw [hg A hA, hg' A hA'] at this
+    exact Nat.le_trans this (mem_le_maxList _ _ (List.mem_map.2 ⟨A, hA', rfl⟩))
+
+/-- the same for plain maxima (FIFO) -/
+theorem maxList_range_le (g g' : Nat → Nat) (L L' : Nat) (hL : L ≤ L')
+    (hle : ∀ A, A < L → g A ≤ g' A) :
+    maxList ((List.range L).map g) ≤ maxList ((List.range L').map g') := by
+  apply maxList_le_of_forall
+  intro x hx
+  rcases List.mem_map.1 hx with ⟨A, hA, rfl⟩
+  have hAL := List.mem_range.1 hA
+  exact Nat.le_trans (hle A hAL)
+    (mem_le_maxList _ _ (List.mem_map.2 ⟨A, List.mem_range.2 (by omega), rfl⟩))
+
+/-- the tail shared by the per-offset computations -/
+def fin (A rem : Nat) : Res → Res
+  | .ok AF => .ok (AF - A + rem)
+  | e => e
+
+theorem fin_le (A rem rem' : Nat) (r r' : Res) (hrem : rem ≤ rem') (h : Res.le r r') :
+    Res.le (fin A rem r) (fin A rem' r') := by
+  cases r <;> cases r' <;> simp only [Res.le, fin] at h ⊢ <;>
+    first | omega | exact h | trivial
+
+theorem fpF_eq_fin (tua : RB) (others : List RB) (B rem limit A : Nat) :
+    fpF tua others B rem limit A =
+      fin A rem (naiveSolve (fun AF => B + (tua.need (A + 1) - rem) + sumNeed others AF) limit) := by
+  unfold fpF
+  cases naiveSolve (fun AF => B + (tua.need (A + 1) - rem) + sumNeed others AF) limit <;> rfl
+
+theorem edfPer_eq_fin (tua : RB) (D : Nat) (others : List EdfTask) (rem : Nat) (wb : Bool)
+    (limit A : Nat) :
+    edfPer tua D others rem wb limit A =
+      fin A rem (naiveSolve (edfRhs tua D others rem wb A) limit) := by
+  unfold edfPer
+  cases naiveSolve (edfRhs tua D others rem wb A) limit <;> rfl
+
+/-- `fin` of a solve that is stable under the limit -/
+theorem fin_solve_stable (w : Nat → Nat) (A rem limit limit' v : Nat)
+    (hst : ∀ r, naiveSolve w limit = .ok r → naiveSolve w limit' = .ok r)
+    (h : fin A rem (naiveSolve w limit) = .ok v) :
+    fin A rem (naiveSolve w limit') = fin A rem (naiveSolve w limit) := by
+  rcases naiveSolve_cases w limit with ⟨r, hr⟩ | hd
+  · rw [hst r hr, hr]
+  · rw [hd] at h; cases h
+
+/-! ### jitter -/
+
+theorem prop_mono (a : Arr) (hwf : a.WF) (j j' d : Nat) (h : j ≤ j') :
+    (Arr.prop j a).N d ≤ (Arr.prop j' a).N d := by
+  simp only [Arr.N]
+  split
+  · exact Nat.le_refl _
+  · exact Arr.N_mono a hwf _ _ (by omega)
+
+theorem sporadic_jitter_mono (T : Nat) (hT : 1 ≤ T) (j j' d : Nat) (h : j ≤ j') :
+    (Arr.sporadic T j).N d ≤ (Arr.sporadic T j').N d := by
+  rw [sporadic_N_eq, sporadic_N_eq]
+  split
+  · exact Nat.le_refl _
+  · exact ceilDiv_le_of_le T hT (by omega)
+
+mutual
+theorem withJitter_mono' : (a : Arr) → a.WF → ∀ j j' d, j ≤ j' →
+    (a.withJitter j).N d ≤ (a.withJitter j').N d
+  | .never, _, j, j', d, _ => by simp only [Arr.withJitter]; exact Nat.le_refl _
+  | .periodic T, hwf, j, j', d, h => by
+    simp only [Arr.WF] at hwf
+    simp only [Arr.withJitter]
+    exact sporadic_jitter_mono T hwf j j' d h
+  | .sporadic T J, hwf, j, j', d, h => by
+    simp only [Arr.WF] at hwf
+    simp only [Arr.withJitter]
+    exact sporadic_jitter_mono T hwf (J + j) (J + j') d (by omega)
+  | .curve dm, hwf, j, j', d, h => by
+    simp only [Arr.withJitter]
+    exact prop_mono (.curve dm) hwf j j' d h
+  | .xcurve dm, hwf, j, j', d, h => by
+    simp only [Arr.withJitter]
+    exact prop_mono (.xcurve dm) hwf j j' d h
+  | .pfx hz st, hwf, j, j', d, h => by
+    simp only [Arr.withJitter]
+    exact prop_mono (.pfx hz st) hwf j j' d h
+  | .prop J a, hwf, j, j', d, h => by
+    simp only [Arr.WF] at hwf
+    simp only [Arr.withJitter]
+    exact prop_mono a hwf (J + j) (J + j') d (by omega)
+  | .agg as, hwf, j, j', d, h => by
+    simp only [Arr.WF] at hwf
+    simp only [Arr.withJitter, Arr.N]
+    exact withJitterList_mono' as hwf j j' d h
+  | .sum a b, hwf, j, j', d, h => by
+    simp only [Arr.WF] at hwf
+    simp only [Arr.withJitter, Arr.N]
+    exact Nat.add_le_add (withJitter_mono' a hwf.1 j j' d h) (withJitter_mono' b hwf.2 j j' d h)
+theorem withJitterList_mono' : (as : List Arr) → Arr.WFlist as → ∀ j j' d, j ≤ j' →
+    Arr.Nlist (Arr.withJitterList as j) d ≤ Arr.Nlist (Arr.withJitterList as j') d
+  | [], _, j, j', d, _ => by simp only [Arr.withJitterList]; exact Nat.le_refl _
+  | a :: as, hwf, j, j', d, h => by
+    simp only [Arr.WFlist] at hwf
+    simp only [Arr.withJitterList, Arr.Nlist]
+    exact Nat.add_le_add (withJitter_mono' a hwf.1 j j' d h)
+      (withJitterList_mono' as hwf.2 j j' d h)
+end
+
+theorem ceilDiv_param_le (a a' T T' : Nat) (hT' : 1 ≤ T') (hT : T' ≤ T) (ha : a ≤ a') :
+    ceilDiv a T ≤ ceilDiv a' T' := by
+  rw [ceilDiv_le_iff a T _ (by omega)]
+  have h1 := le_ceilDiv_mul a' T' hT'
+  have h2 : ceilDiv a' T' * T' ≤ ceilDiv a' T' * T := Nat.mul_le_mul_left _ hT
+  omega
+
+theorem sumNeed_cons (o : RB) (others : List RB) (d : Nat) :
+    sumNeed (o :: others) d = o.need d + sumNeed others d := rfl
+
+end MonoLemmas
+open MonoLemmas
 
 /-! ### the limit -/
 
 /-- increasing the divergence limit never changes an `Ok` result -/
 theorem naiveSolve_limit_stable (w : Nat → Nat) (limit limit' r : Nat) (h : naiveSolve w limit = .ok r)
     (hl : limit ≤ limit') : naiveSolve w limit' = .ok r := by
-  sorry
+  rw [naiveSolve_ok_iff] at h ⊢
+  exact ⟨by omega, h.2.1, h.2.2⟩
 
 theorem naiveFifo_limit_stable (t : RB) (limit limit' R : Nat) (h : naiveFifo t limit = .ok R)
     (hl : limit ≤ limit') : naiveFifo t limit' = .ok R := by
-  sorry
+  unfold naiveFifo at h ⊢
+  rcases naiveSolve_cases (fun L => t.need L) limit with ⟨L, hL⟩ | hd
+  · rw [naiveSolve_limit_stable _ limit limit' L hL hl]
+    rw [hL] at h
+    exact h
+  · rw [hd] at h; cases h
 
 theorem naiveFp_limit_stable (tua : RB) (others : List RB) (B rem limit limit' R : Nat)
     (h : naiveFp tua others B rem limit = .ok R) (hl : limit ≤ limit') :
     naiveFp tua others B rem limit' = .ok R := by
-  sorry
+  rw [naiveFp_eq] at h ⊢
+  rcases naiveSolve_cases (fun L => B + sumNeed others L + tua.need L) limit with ⟨L, hL⟩ | hd
+  · rw [naiveSolve_limit_stable _ limit limit' L hL hl]
+    rw [hL] at h
+    have hok := naiveMax_ok_inv _ R h
+    have e : (List.range L).map (fpF tua others B rem limit') =
+        (List.range L).map (fpF tua others B rem limit) := by
+      apply List.map_congr_left
+      intro A hA
+      obtain ⟨v, hv⟩ := hok _ (List.mem_map.2 ⟨A, hA, rfl⟩)
+      rw [fpF_eq_fin] at hv
+      rw [fpF_eq_fin, fpF_eq_fin]
+      exact fin_solve_stable _ A rem limit limit' v
+        (fun r hr => naiveSolve_limit_stable _ limit limit' r hr hl) hv
+    show naiveMax ((List.range L).map (fpF tua others B rem limit')) = .ok R
+    rw [e]
+    exact h
+  · rw [hd] at h; cases h
 
 theorem naiveEdf_limit_stable (tua : RB) (D : Nat) (others : List EdfTask) (rem : Nat) (wb : Bool)
     (limit limit' R : Nat) (h : naiveEdf tua D others rem wb limit = .ok R) (hl : limit ≤ limit') :
     naiveEdf tua D others rem wb limit' = .ok R := by
-  sorry
+  rw [naiveEdf_eq] at h ⊢
+  rcases naiveSolve_cases (fun L => sumNeed (others.map (·.rb)) L + tua.need L) limit with
+    ⟨L, hL⟩ | hd
+  · rw [naiveSolve_limit_stable _ limit limit' L hL hl]
+    rw [hL] at h
+    have hok := naiveMax_ok_inv _ R h
+    have e : (List.range L).map (edfPer tua D others rem wb limit') =
+        (List.range L).map (edfPer tua D others rem wb limit) := by
+      apply List.map_congr_left
+      intro A hA
+      obtain ⟨v, hv⟩ := hok _ (List.mem_map.2 ⟨A, hA, rfl⟩)
+      rw [edfPer_eq_fin] at hv
+      rw [edfPer_eq_fin, edfPer_eq_fin]
+      exact fin_solve_stable _ A rem limit limit' v
+        (fun r hr => naiveSolve_limit_stable _ limit limit' r hr hl) hv
+    show naiveMax ((List.range L).map (edfPer tua D others rem wb limit')) = .ok R
+    rw [e]
+    exact h
+  · rw [hd] at h; cases h
 
 /-! ### the workload -/
 
 theorem naiveFifo_mono (t t' : RB) (h : ∀ d, t.need d ≤ t'.need d) (limit : Nat) :
     Res.le (naiveFifo t limit) (naiveFifo t' limit) := by
-  sorry
+  have hout := naiveSolve_mono (fun L => t.need L) (fun L => t'.need L) limit h
+  unfold naiveFifo
+  rcases naiveSolve_cases (fun L => t'.need L) limit with ⟨L', hL'⟩ | hd'
+  · rw [hL'] at hout ⊢
+    rcases naiveSolve_cases (fun L => t.need L) limit with ⟨L, hL⟩ | hd
+    · rw [hL] at hout ⊢
+      show maxList _ ≤ maxList _
+      apply maxList_range_le _ _ L L' hout
+      intro A _
+      have := h (A + 1)
+      show t.need (A + 1) - A ≤ t'.need (A + 1) - A
+      omega
+    · rw [hd] at hout; exact hout.elim
+  · rw [hd']
+    rcases naiveSolve_cases (fun L => t.need L) limit with ⟨L, hL⟩ | hd
+    · rw [hL]; exact trivial
+    · rw [hd]; exact ⟨rfl, rfl⟩
 
 /-- harder system: more demand of the task under analysis (after subtracting the
 run-to-completion remainder), more interfering demand, more blocking, a larger remainder -/
@@ -42,7 +346,32 @@ theorem naiveFp_mono (tua tua' : RB) (others others' : List RB) (B B' rem rem' l
     (hown : ∀ d, tua.need d - rem ≤ tua'.need d - rem')
     (hoth : ∀ d, sumNeed others d ≤ sumNeed others' d) (hB : B ≤ B') (hrem : rem ≤ rem') :
     Res.le (naiveFp tua others B rem limit) (naiveFp tua' others' B' rem' limit) := by
-  sorry
+  have hout := naiveSolve_mono (fun L => B + sumNeed others L + tua.need L)
+    (fun L => B' + sumNeed others' L + tua'.need L) limit (fun x => by
+      show B + sumNeed others x + tua.need x ≤ B' + sumNeed others' x + tua'.need x
+      have := hoth x; have := htua x; omega)
+  rw [naiveFp_eq, naiveFp_eq]
+  rcases naiveSolve_cases (fun L => B' + sumNeed others' L + tua'.need L) limit with ⟨L', hL'⟩ | hd'
+  · rw [hL'] at hout ⊢
+    rcases naiveSolve_cases (fun L => B + sumNeed others L + tua.need L) limit with ⟨L, hL⟩ | hd
+    · rw [hL] at hout ⊢
+      apply naiveMax_range_le _ _ L L' limit hout (fpF_cases tua others B rem limit)
+        (fpF_cases tua' others' B' rem' limit)
+      intro A _
+      rw [fpF_eq_fin, fpF_eq_fin]
+      apply fin_le A rem rem' _ _ hrem
+      apply naiveSolve_mono
+      intro x
+      show B + (tua.need (A + 1) - rem) + sumNeed others x ≤
+        B' + (tua'.need (A + 1) - rem') + sumNeed others' x
+      have := hoth x; have := hown (A + 1); omega
+    · rw [hd] at hout; exact hout.elim
+  · rw [hd']
+    rcases naiveSolve_cases (fun L => B + sumNeed others L + tua.need L) limit with ⟨L, hL⟩ | hd
+    · rw [hL]
+      exact res_le_div_of_cases _ 0 limit
+        (naiveMax_cases _ _ 0 limit (fun A _ => fpF_cases tua others B rem limit A))
+    · rw [hd]; exact ⟨rfl, rfl⟩
 
 theorem naiveEdf_mono (tua tua' : RB) (D : Nat) (others others' : List EdfTask) (rem rem' : Nat)
     (wb : Bool) (limit : Nat)
@@ -52,52 +381,140 @@ theorem naiveEdf_mono (tua tua' : RB) (D : Nat) (others others' : List EdfTask) 
     (hhep : ∀ A AF, edfHepWorkload others D A AF ≤ edfHepWorkload others' D A AF)
     (hblk : ∀ A, edfBlocking others D A ≤ edfBlocking others' D A) (hrem : rem ≤ rem') :
     Res.le (naiveEdf tua D others rem wb limit) (naiveEdf tua' D others' rem' wb limit) := by
-  sorry
+  have hout := naiveSolve_mono (fun L => sumNeed (others.map (·.rb)) L + tua.need L)
+    (fun L => sumNeed (others'.map (·.rb)) L + tua'.need L) limit (fun x => by
+      show sumNeed (others.map (·.rb)) x + tua.need x ≤ sumNeed (others'.map (·.rb)) x + tua'.need x
+      have := htot x; have := htua x; omega)
+  rw [naiveEdf_eq, naiveEdf_eq]
+  rcases naiveSolve_cases (fun L => sumNeed (others'.map (·.rb)) L + tua'.need L) limit with
+    ⟨L', hL'⟩ | hd'
+  · rw [hL'] at hout ⊢
+    rcases naiveSolve_cases (fun L => sumNeed (others.map (·.rb)) L + tua.need L) limit with
+      ⟨L, hL⟩ | hd
+    · rw [hL] at hout ⊢
+      apply naiveMax_range_le _ _ L L' limit hout (edfPer_cases tua D others rem wb limit)
+        (edfPer_cases tua' D others' rem' wb limit)
+      intro A _
+      rw [edfPer_eq_fin, edfPer_eq_fin]
+      apply fin_le A rem rem' _ _ hrem
+      apply naiveSolve_mono
+      intro x
+      unfold edfRhs
+      have := hhep A x; have := hown (A + 1); have := hblk A
+      cases wb
+      · simp only [Bool.false_eq_true, if_false]; omega
+      · simp only [if_true]; omega
+    · rw [hd] at hout; exact hout.elim
+  · rw [hd']
+    rcases naiveSolve_cases (fun L => sumNeed (others.map (·.rb)) L + tua.need L) limit with
+      ⟨L, hL⟩ | hd
+    · rw [hL]
+      exact res_le_div_of_cases _ 0 limit
+        (naiveMax_cases _ _ 0 limit (fun A _ => edfPer_cases tua D others rem wb limit A))
+    · rw [hd]; exact ⟨rfl, rfl⟩
 
 /-! ### single-parameter hardenings of the inputs -/
 
 /-- more release jitter: more arrivals in every window -/
 theorem Arr.withJitter_mono (a : Arr) (hwf : a.WF) (j j' d : Nat) (h : j ≤ j') :
     (a.withJitter j).N d ≤ (a.withJitter j').N d := by
-  sorry
+  exact withJitter_mono' a hwf j j' d h
 
 /-- a shorter period / more jitter of a sporadic task: more arrivals -/
 theorem sporadic_param_mono (T T' J J' d : Nat) (hT' : 1 ≤ T') (hT : T' ≤ T) (hJ : J ≤ J') :
     (Arr.sporadic T J).N d ≤ (Arr.sporadic T' J').N d := by
-  sorry
+  rw [sporadic_N_eq, sporadic_N_eq]
+  split
+  · exact Nat.le_refl _
+  · exact ceilDiv_param_le _ _ T T' hT' hT (by omega)
 
 theorem periodic_param_mono (T T' d : Nat) (hT' : 1 ≤ T') (hT : T' ≤ T) :
     (Arr.periodic T).N d ≤ (Arr.periodic T').N d := by
-  sorry
+  rw [periodic_N_eq, periodic_N_eq]
+  exact ceilDiv_param_le _ _ T T' hT' hT (Nat.le_refl _)
 
 /-- a larger WCET: more demand, also after subtracting the NP remainder `C - 1` -/
 theorem scalar_cost_mono (a : Arr) (C C' d : Nat) (h : C ≤ C') :
     (RB.rbf a (.scalar C)).need d ≤ (RB.rbf a (.scalar C')).need d ∧
     (RB.rbf a (.scalar C)).need d - (C - 1) ≤ (RB.rbf a (.scalar C')).need d - (C' - 1) := by
-  sorry
+  simp only [RB.need, Cost.ofJobs]
+  have h1 : C * a.N d ≤ C' * a.N d := Nat.mul_le_mul_right _ h
+  refine ⟨h1, ?_⟩
+  cases hn : a.N d with
+  | zero => simp
+  | succ m =>
+    have h2 : C * m ≤ C' * m := Nat.mul_le_mul_right _ h
+    rw [Nat.mul_succ, Nat.mul_succ]
+    omega
 
 /-- adding an interfering task -/
 theorem sumNeed_cons_le (o : RB) (others : List RB) (d : Nat) : sumNeed others d ≤ sumNeed (o :: others) d := by
-  sorry
+  rw [sumNeed_cons]; omega
 
 theorem edf_add_task (o : EdfTask) (others : List EdfTask) (D : Nat) :
     (∀ d, sumNeed (others.map (·.rb)) d ≤ sumNeed ((o :: others).map (·.rb)) d) ∧
     (∀ A AF, edfHepWorkload others D A AF ≤ edfHepWorkload (o :: others) D A AF) ∧
     (∀ A, edfBlocking others D A ≤ edfBlocking (o :: others) D A) := by
-  sorry
+  refine ⟨?_, ?_, ?_⟩
+  · intro d
+    rw [List.map_cons, sumNeed_cons]; omega
+  · intro A AF
+    unfold edfHepWorkload
+    rw [List.map_cons]
+    simp only [sumList]
+    omega
+  · intro A
+    unfold edfBlocking
+    apply maxList_subset
+    intro x hx
+    rw [List.mem_map] at hx ⊢
+    obtain ⟨o', ho', rfl⟩ := hx
+    refine ⟨o', ?_, rfl⟩
+    rw [List.mem_filter] at ho' ⊢
+    exact ⟨List.mem_cons_of_mem _ ho'.1, ho'.2⟩
 
 /-- a longer non-preemptive segment of another task: more blocking, nothing else changes -/
 theorem edfBlocking_seg_mono (pre post : List EdfTask) (o : EdfTask) (seg' : Nat) (h : o.seg ≤ seg')
     (D A : Nat) :
     edfBlocking (pre ++ o :: post) D A ≤ edfBlocking (pre ++ { o with seg := seg' } :: post) D A := by
-  sorry
+  unfold edfBlocking
+  apply maxList_le
+  intro x hx
+  rw [List.mem_map] at hx
+  obtain ⟨o1, ho1, rfl⟩ := hx
+  rw [List.mem_filter] at ho1
+  obtain ⟨hmem, hp⟩ := ho1
+  rw [List.mem_append, List.mem_cons] at hmem
+  rcases hmem with hmem | rfl | hmem
+  · apply le_maxList_of_mem
+    rw [List.mem_map]
+    refine ⟨o1, ?_, rfl⟩
+    rw [List.mem_filter]
+    exact ⟨List.mem_append_left _ hmem, hp⟩
+  · have hin : (({ o1 with seg := seg' } : EdfTask).seg - 1) ∈
+        ((pre ++ { o1 with seg := seg' } :: post).filter fun o =>
+          decide (o.D > D + A) && decide (o.rb.need 1 > 0)).map fun o => o.seg - 1 := by
+      rw [List.mem_map]
+      refine ⟨{ o1 with seg := seg' }, ?_, rfl⟩
+      rw [List.mem_filter]
+      exact ⟨List.mem_append_right _ (List.mem_cons_self), hp⟩
+    have := le_maxList_of_mem _ _ hin
+    have e : ({ o1 with seg := seg' } : EdfTask).seg = seg' := rfl
+    rw [e] at this
+    omega
+  · apply le_maxList_of_mem
+    rw [List.mem_map]
+    refine ⟨o1, ?_, rfl⟩
+    rw [List.mem_filter]
+    exact ⟨List.mem_append_right _ (List.mem_cons_of_mem _ hmem), hp⟩
 
 /-! ### transfer to the analyses (through C06) -/
 
 theorem fifo_mono (t t' : RB) (hwf : t.ArrWF) (hex : t.Exact) (hwf' : t'.ArrWF) (hex' : t'.Exact)
     (h : ∀ d, t.need d ≤ t'.need d) (limit : Nat) (hl : 1 ≤ limit) :
     Res.le (fifoRta t limit) (fifoRta t' limit) := by
-  sorry
+  rw [fifo_eq_naive t hwf hex limit hl, fifo_eq_naive t' hwf' hex' limit hl]
+  exact naiveFifo_mono t t' h limit
 
 theorem fpCore_mono (tua tua' : RB) (others others' : List RB) (B B' rem rem' limit : Nat)
     (hwf : tua.ArrWF) (hex : tua.Exact) (ho : OthersOK others)
@@ -109,7 +526,10 @@ theorem fpCore_mono (tua tua' : RB) (others others' : List RB) (B B' rem rem' li
     (hown : ∀ d, tua.need d - rem ≤ tua'.need d - rem')
     (hoth : ∀ d, sumNeed others d ≤ sumNeed others' d) (hB : B ≤ B') (hrem : rem ≤ rem') :
     Res.le (fpCore tua others B rem limit) (fpCore tua' others' B' rem' limit) := by
-  sorry
+  have hpos' : 0 < tua'.need 1 := Nat.lt_of_lt_of_le hpos (htua 1)
+  rw [fpCore_eq_naive tua others B rem limit hwf hex ho hl hpos hstep,
+    fpCore_eq_naive tua' others' B' rem' limit hwf' hex' ho' hl hpos' hstep']
+  exact naiveFp_mono tua tua' others others' B B' rem rem' limit htua hown hoth hB hrem
 
 theorem edfCore_mono (tua tua' : RB) (D : Nat) (others others' : List EdfTask) (rem rem' : Nat)
     (wb : Bool) (limit : Nat)
@@ -124,7 +544,10 @@ theorem edfCore_mono (tua tua' : RB) (D : Nat) (others others' : List EdfTask) (
     (hhep : ∀ A AF, edfHepWorkload others D A AF ≤ edfHepWorkload others' D A AF)
     (hblk : ∀ A, edfBlocking others D A ≤ edfBlocking others' D A) (hrem : rem ≤ rem') :
     Res.le (edfCore tua D others rem wb limit) (edfCore tua' D others' rem' wb limit) := by
-  sorry
+  have hpos' : 0 < tua'.need 1 := Nat.lt_of_lt_of_le hpos (htua 1)
+  rw [edfCore_eq_naive tua D others rem wb limit hwf hex ho hl hpos hstep,
+    edfCore_eq_naive tua' D others' rem' wb limit hwf' hex' ho' hl hpos' hstep']
+  exact naiveEdf_mono tua tua' D others others' rem rem' wb limit htua hown htot hhep hblk hrem
 
 /-- increasing the limit never changes an `Ok` result of the analyses -/
 theorem fpCore_limit_stable (tua : RB) (others : List RB) (B rem limit limit' R : Nat)
@@ -132,17 +555,42 @@ theorem fpCore_limit_stable (tua : RB) (others : List RB) (B rem limit limit' R 
     (hstep : ∀ A, tua.need A < tua.need (A + 1) → tua.need A + rem < tua.need (A + 1))
     (hpos : 0 < tua.need 1) (h : fpCore tua others B rem limit = .ok R) (hl : limit ≤ limit') :
     fpCore tua others B rem limit' = .ok R := by
-  sorry
+  have hl1 : 1 ≤ limit := by
+    rcases Nat.eq_zero_or_pos limit with h0 | h0
+    · subst h0
+      rw [fpCore_eq, search_limit_zero] at h
+      cases h
+    · exact h0
+  rw [fpCore_eq_naive tua others B rem limit hwf hex ho hl1 hpos hstep] at h
+  rw [fpCore_eq_naive tua others B rem limit' hwf hex ho (by omega) hpos hstep]
+  exact naiveFp_limit_stable tua others B rem limit limit' R h hl
 
 theorem edfCore_limit_stable (tua : RB) (D : Nat) (others : List EdfTask) (rem : Nat) (wb : Bool)
     (limit limit' R : Nat) (hwf : tua.ArrWF) (hex : tua.Exact) (ho : EdfOthersOK others)
     (hstep : ∀ A, tua.need A < tua.need (A + 1) → tua.need A + rem < tua.need (A + 1))
     (hpos : 0 < tua.need 1) (h : edfCore tua D others rem wb limit = .ok R) (hl : limit ≤ limit') :
     edfCore tua D others rem wb limit' = .ok R := by
-  sorry
+  have hl1 : 1 ≤ limit := by
+    rcases Nat.eq_zero_or_pos limit with h0 | h0
+    · subst h0
+      rw [edfCore_eq, search_limit_zero] at h
+      cases h
+    · exact h0
+  rw [edfCore_eq_naive tua D others rem wb limit hwf hex ho hl1 hpos hstep] at h
+  rw [edfCore_eq_naive tua D others rem wb limit' hwf hex ho (by omega) hpos hstep]
+  exact naiveEdf_limit_stable tua D others rem wb limit limit' R h hl
 
 theorem fifo_limit_stable (t : RB) (hwf : t.ArrWF) (hex : t.Exact) (limit limit' R : Nat)
     (h : fifoRta t limit = .ok R) (hl : limit ≤ limit') : fifoRta t limit' = .ok R := by
-  sorry
+  have hl1 : 1 ≤ limit := by
+    rcases Nat.eq_zero_or_pos limit with h0 | h0
+    · subst h0
+      unfold fifoRta at h
+      rw [search_limit_zero] at h
+      cases h
+    · exact h0
+  rw [fifo_eq_naive t hwf hex limit hl1] at h
+  rw [fifo_eq_naive t hwf hex limit' (by omega)]
+  exact naiveFifo_limit_stable t limit limit' R h hl
 
 end RTA
